@@ -8,8 +8,8 @@ From Coq Require Import List NArith ZArith Bool.
 From Coq Require Strings.String.
 Import Coq.Strings.String.StringSyntax.
 From Acg Require Import Base.Str Base.Outcome Model.Tree Model.PyEval Model.AstRules
-  Model.PyTranspileKinds Model.PyTranspile Model.VerifySpec Model.Wrap
-  Proofs.AstRulesFacts Proofs.VerifySpecFacts Proofs.WrapFacts Gen.GenPyTranspile Gen.GenWrap.
+  Model.PyTranspileKinds Model.PyTranspile Model.PyTranspileRename Model.VerifySpec Model.Wrap
+  Proofs.AstRulesFacts Proofs.PyTranspileFacts Proofs.VerifySpecFacts Proofs.WrapFacts Gen.GenPyTranspile Gen.GenWrap.
 Import ListNotations.
 Local Open Scope nat_scope.
 
@@ -109,16 +109,71 @@ Print Assumptions C08_ast_rules_nonvacuous.
 
 (** ** The transpiler [python/transpilation.py]
 
-    Full statement (NOT proved in Coq; the model [Model/PyTranspile.v] is tied to the code by
-    the structural correspondence: its target AST without parentheses equals Python's parse
-    of the real output, its token list equals the real tokens; the semantics of the real
-    output is exercised by the direct oracle on the generated SDK):
+    [Model/PyTranspile.v] is tied to the code by the structural correspondence (its target AST
+    without parentheses equals Python's parse of the real output, its token list equals the
+    real tokens) and the tables regenerated from the source ([gen_ptables]). The target
+    expression is evaluated by [eval_py] (parentheses are transparent). *)
 
-      transpile_sound : transpile gen_ptables G e = Ok e' ->
-        forall env, eval_py (rename G env) (strip_parens e') fuel = eval env e fuel
+(** Soundness, for ALL expressions, environments and fuels, values AND raised exceptions:
+    in every SDK environment [r'] that corresponds to the meta-model environment [r]
+    ([env_rel]: [that] holds the renamed value of [self], [aas_constants]/[aas_types] hold the
+    constants/enumerations, functions and loop variables are bound under their SDK names, the
+    implementation-specific functions commute with the renaming), the expression written by
+    the transpiler evaluates to the renamed result of the invariant. Side conditions: the
+    naming functions are injective ([naming_ok], property C21) and the naming table of [G] is
+    their graph; names of [G] are of one kind; no SDK name of a function or loop variable is
+    [range]; the loop variables of [e] do not capture [that], the modules, a function or
+    [len] ([var_ok]). *)
+Theorem C08_transpile_sound :
+  forall nm G e e' r r' fuel,
+    naming_ok nm -> ctx_ok nm G ->
+    (forall x, In x (bvars e) -> var_ok nm G x) ->
+    env_rel nm G r r' ->
+    transpile gen_ptables G e = Ok e' ->
+    eval_py r' e' fuel = ren_result nm (eval r e fuel).
+Proof.
+  intros nm G e e' r r' fuel Hok. apply transpile_sound; [exact Hok|]. vm_compute. reflexivity.
+Qed.
+Print Assumptions C08_transpile_sound.
 
-    where [rename] binds [that] to the value of [self], [aas_types]/[aas_constants] to the
-    modules and maps identifiers through the naming table. *)
+(** With the SDK keeping the identifiers of the meta-model ([nm_id]) the SDK environment is
+    computed ([rename]: [that] := [self], the two modules) and the statement is a plain
+    equation — this also shows that the hypotheses of [C08_transpile_sound] are satisfiable. *)
+Theorem C08_transpile_sound_rename :
+  forall G e e' r fuel,
+    ctx_ok nm_id G -> (forall x, In x (bvars e) -> var_ok nm_id G x) -> env_fits G r ->
+    transpile gen_ptables G e = Ok e' ->
+    eval_py (rename G r) e' fuel = eval r e fuel.
+Proof.
+  intros G e e' r fuel. apply transpile_sound_rename. vm_compute. reflexivity.
+Qed.
+Print Assumptions C08_transpile_sound_rename.
+
+(** The generated [if not (<expr>):] fires iff the invariant is falsy, and raises iff it raises. *)
+Theorem C08_transpile_condition_sound :
+  forall nm G e c r r' fuel,
+    naming_ok nm -> ctx_ok nm G ->
+    (forall x, In x (bvars e) -> var_ok nm G x) ->
+    env_rel nm G r r' ->
+    transpile_condition gen_ptables G e = Ok c ->
+    eval_py r' c fuel = match eval r e fuel with
+                        | Val w => Val (VBool (negb (truthy w)))
+                        | Raise x => Raise x
+                        end.
+Proof.
+  intros nm G e c r r' fuel Hok. apply transpile_condition_sound; [exact Hok|]. vm_compute. reflexivity.
+Qed.
+Print Assumptions C08_transpile_condition_sound.
+
+(** The side condition on loop variables is necessary: the code as found writes a loop
+    variable called [that] as [that] and captures the instance under verification (the
+    repaired [transform_name] reports an error instead, as the model does). *)
+Example C08_transpile_rejects_that :
+  forallb (fun v => match transpile_name (mkTyenv [] [v] [] [] [] [] [(NVar, v, v)]) v with
+                    | Err _ => true | _ => false end)
+          [s2l "that"; s2l "aas_types"; s2l "aas_constants"] = true.
+Proof. vm_compute. reflexivity. Qed.
+Print Assumptions C08_transpile_rejects_that.
 
 (** ** The specification of [verify] *)
 
